@@ -520,6 +520,43 @@ func c05Verify(c *Ctx, verify, adPay, epPay *Fn) {
 		}
 		b, g3 := has(Bin("==", epSignerAny, Bind("expect")), true)
 		if !g3 {
+			// the comparison may be made separately for the main provider's entry and for the others: then every way
+			// to the continuation passes one of the two — signer == the advertisement's signer, made under
+			// ID == Provider, or signer == the entry's own decoded ID, made under ID != Provider
+			adSigner := Extract("0", Call("peer.IDFromPublicKey", Field("PublicKey", Extract("0", Is(c.E(adCons.In.(*ssa.Call)))))))
+			ownID := Extract("0", Call("peer.Decode", Field("ID", Any())))
+			altMain := Alt{Bin("==", epSigner, adSigner), true}
+			altOwn := Alt{Bin("==", epSigner, ownID), true}
+			if c.PathsCarryDAG(p, []Alt{altMain, altOwn}) {
+				okBranches, nMain, nOwn := true, 0, 0
+				for _, blk := range fn.Blocks {
+					iff, isIf := blk.Instrs[len(blk.Instrs)-1].(*ssa.If)
+					if !isIf {
+						continue
+					}
+					cx, _ := normFact(c.E(iff.Cond), true)
+					_, isMain := Match(altMain.Pat, cx)
+					_, isOwn := Match(altOwn.Pat, cx)
+					if !isMain && !isOwn {
+						continue
+					}
+					_, underMain := c.GuardedB(blk, Bin("==", Field("ID", Any()), Field("Provider", Any())), true)
+					_, underOther := c.GuardedB(blk, Bin("==", Field("ID", Any()), Field("Provider", Any())), false)
+					if isMain {
+						nMain++
+						okBranches = okBranches && underMain
+					}
+					if isOwn {
+						nOwn++
+						okBranches = okBranches && underOther
+					}
+				}
+				if okBranches && nMain == 1 && nOwn == 1 {
+					c.OK("C05.S3-ep-signer-compared", k+" › signer compared", epCons.In.Pos(), "every way to the continuation passes envelope signer == expected signer (compared per branch)")
+					c.OK("C05.S3-ep-signer-compared", k+" › expected signer", epCons.In.Pos(), "the advertisement's signer under ID == Provider, the entry's own decoded ID otherwise")
+					continue
+				}
+			}
 			c.Bad("C05.S3-ep-signer-compared", k+" › signer compared", epCons.In.Pos(), "the key that signed an extended provider's envelope is never compared with the identity the entry names: any key can sign for any provider")
 			continue
 		}
